@@ -14,6 +14,7 @@ Line protocol of the C19 model driver.
   gc  <ty>        -> <size> <align> <offsets|-> <field sizes|-> <field aligns|->   compiler rules (specification)
   gcs <ty>        -> same format, go/gcsizes
   lay <ty>        -> records of `structlayout T` (type must be a struct)
+  leaves <ty>     -> l:<dotted name>:<offset>:<size>:<align> per leaf, compiler rules (specification)
   opt <0|1> <ty>  -> records of `structlayout -json T | structlayout-optimize [-r]`
   optrec <0|1> <rec>*  -> records of structlayout-optimize [-r] on the given records
 -/
@@ -117,6 +118,13 @@ def step (line : String) : String :=
   | "lay" :: toks =>
     match (parseWholeTy toks).bind structFields with
     | some fs => showRecs (layout "T" fs)
+    | none => "bad-op"
+  | "leaves" :: toks =>
+    match (parseWholeTy toks).bind structFields with
+    | some fs =>
+      let ls := gcLeavesFields ["T"] 0 0 fs
+      if ls.isEmpty then "-"
+      else " ".intercalate (ls.map fun l => s!"l:{".".intercalate l.path}:{l.off}:{l.size}:{l.align}")
     | none => "bad-op"
   | "opt" :: r :: toks =>
     match parseBool r, (parseWholeTy toks).bind structFields with
